@@ -309,6 +309,14 @@ pub fn gen_shader(seed: u64, scale: u32) -> String {
     let n_helpers = rng.usize(0, 3 + scale.min(6));
     let use_rts = rng.chance(120);
     let use_push = rng.chance(250);
+    // Comments do not survive parsing, but the embedded SOURCE literal carries them verbatim:
+    // non-ASCII text, tabs and CRLF line endings must come back exactly.
+    let exotic = rng.chance(350);
+    let crlf = exotic && rng.chance(300);
+    if exotic {
+        let _ = writeln!(out, "// 手順 {}: 法線 → 視線ベクトル — naïve façade ünïcode ✓ 😀", rng.below(1000));
+        let _ = writeln!(out, "//\ttabs\tand \"quotes\" and \\backslashes\\ and 'single' ones");
+    }
 
     // Host-shareable structs; later ones may embed earlier ones.
     let mut struct_names = Vec::new();
@@ -558,6 +566,20 @@ pub fn gen_shader(seed: u64, scale: u32) -> String {
             let _ = writeln!(out, "    return o;\n}}");
         }
     }
+    if exotic {
+        // keep non-ASCII text coming throughout a long source so that any chunk boundary of a
+        // reader can fall inside a multi-byte character
+        let lines = out.lines().count();
+        let mut with_comments = String::with_capacity(out.len() * 2);
+        for (i, line) in out.lines().enumerate() {
+            with_comments.push_str(line);
+            with_comments.push('\n');
+            if i % 3 == 2 {
+                let _ = writeln!(with_comments, "// {i}/{lines} 頂点シェーダー用の補間値 → ℝ³ · Ünïcödé · 🙂🙃");
+            }
+        }
+        out = with_comments;
+    }
     let n_cs = rng.usize(if n_vs + n_fs == 0 { 1 } else { 0 }, 1 + scale.min(3));
     for i in 0..n_cs {
         let (x, y, z) = (
@@ -571,6 +593,9 @@ pub fn gen_shader(seed: u64, scale: u32) -> String {
         );
         body(&mut rng, &mut out);
         let _ = writeln!(out, "    wg_scratch[gid.x % 64u] = acc;\n}}");
+    }
+    if crlf {
+        out = out.replace('\n', "\r\n");
     }
     out
 }
@@ -602,6 +627,7 @@ pub fn deep_shader(kind: u8, depth: u32, variant: u32) -> String {
             kind: 2,
             placement: (variant % 6) as u8,
             pure_helpers: variant % 2 == 1,
+            ptr_args: false,
         }),
         _ => source(&Family::Types {
             depth: depth.min(12),
@@ -613,8 +639,16 @@ pub fn deep_shader(kind: u8, depth: u32, variant: u32) -> String {
 }
 
 /// Sources the library must reject (or accept) identically every time.
+pub const BAD_SHADERS: u64 = 11;
+
 pub fn bad_shader(which: u32) -> String {
-    match which % 7 {
+    match which % BAD_SHADERS as u32 {
+        // several different rule violations at once: which one is reported must not depend on
+        // anything but the source
+        7 => "@group(0) @binding(1) var<uniform> a: vec4<f32>;\n@group(0) @binding(1) var<uniform> b: vec4<f32>;\n@group(1) @binding(4) var<uniform> c: vec4<f32>;\n@group(1) @binding(4) var<uniform> d: vec4<f32>;\n@group(1) @binding(7) var<uniform> e: vec4<f32>;\n@group(1) @binding(7) var<uniform> f: vec4<f32>;\n@fragment fn fs_main() {}".to_string(),
+        8 => "@group(3) @binding(9) var<uniform> a: vec4<f32>;\n@group(3) @binding(9) var<uniform> b: vec4<f32>;\n@group(0) @binding(2) var<uniform> c: vec4<f32>;\n@group(0) @binding(2) var<uniform> d: vec4<f32>;\n@group(5) @binding(0) var<uniform> e: vec4<f32>;\n@fragment fn fs_main() {}".to_string(),
+        9 => "struct S { a: f32, b: array<f32> }\nstruct T { a: f32, b: array<u32> }\n@group(0) @binding(0) var<storage, read> s: S;\n@group(0) @binding(1) var<storage, read> t: T;\n@group(0) @binding(1) var<storage, read> u: T;\n@compute @workgroup_size(1) fn main() {}".to_string(),
+        10 => "fn a() -> f32 { return x1; }\nfn b() -> f32 { return x2; }\nfn c( {".to_string(),
         0 => "fn oops( { }".to_string(),
         1 => "@fragment fn fs_main() -> @location(0) vec4<f32> { return 1.0; }".to_string(),
         2 => "@group(1) @binding(0) var<uniform> a: vec4<f32>;\n@fragment fn fs_main() {}".to_string(),
